@@ -118,6 +118,14 @@ def check_set(core, parser, v, ec, rec):
         m.msh.msh_7 = '20200101120000'
         m.msh.msh_9 = (structref.msh9_for(v, 'ADT_A01') or 'ADT^A01').replace('^', ec['COMPONENT'])
         m.msh.msh_10 = 'id1'
+        # repeated header fields (MSH-18 character sets, MSH-21 profile identifiers, ...): only MSH-2 holds the repetition
+        # character as data - every other MSH field that the version lets repeat is split on it like any field
+        msh_rep = [r for r in tables.segments(v)['MSH'] if r.ok and r.num > 2 and r.card[1] != 1]
+        for r in msh_rep[-3:]:
+            setattr(m.msh, r.name.lower(), 'H%da' % r.num)
+            m.msh.add_field(r.name).value = 'H%db' % r.num
+            m.msh.add_field(r.name).value = 'H%dc' % r.num
+            rec.seen('msh_repeated_fields', 'MSH-%d' % r.num)
         s = m.add_segment(seg) if seg in [c.name for c in tables.messages(v)['ADT_A01'].children] else None
         if s is None:
             s = core.Segment(seg, version=v)
@@ -161,6 +169,12 @@ def check_set(core, parser, v, ec, rec):
         if m2.to_er7() != er:
             rec.violation('reparse-encodes-differently', case, {'first': er[-80:], 'second': m2.to_er7()[-80:]})
             return
+        for r in msh_rep[-3:]:
+            got = [f.to_er7() for f in m2.msh.children.indexes.get(r.name, [])]
+            rec.count('msh_repetition_checks')
+            if got != ['H%d%s' % (r.num, x) for x in 'abc']:
+                rec.violation('repeated-header-field-not-recovered', case, {'field': r.name, 'got': got})
+                return
         rec.count('builder_path_ok')
     except Exception as e:
         rec.violation('raised:%s:build' % type(e).__name__, case, {'exc': repr(e)[:200]})
